@@ -88,7 +88,7 @@ def render(sc, vtool, log, extra=None):
         if st["vals"]:
             line += " |@ " + " ".join(st["vals"])
         L.append(line)
-        if st["pool"] and st["kind"] != "phony":
+        if st["pool"]:
             L.append("  pool = %s" % st["pool"])
         if st["generator"] and st.get("gen_on_build"):
             L.append("  generator = 1")
@@ -622,7 +622,7 @@ def c08_case(ctx, seed):
     n = rng.randint(30, 45)
     sc = {"id": "C08e-%d" % seed, "sources": {"in.c": "// in\n"}, "stmts": [], "pools": {}, "defaults": []}
     for i in range(n):
-        sc["stmts"].append(St("s%d" % i, ["o%d.o" % i], ins=["in.c"]))
+        sc["stmts"].append(St("s%d" % i, ["o%d.o" % i] + (["o%d.map" % i] if rng.random() < 0.25 else []), ins=["in.c"]))
     # a generator statement in the middle of the graph (a generated configuration header): ninja closes the build log
     # before running it and re-opens it afterwards; everything recorded after that must still reach the disk
     with_gen = rng.random() < 0.6
@@ -669,7 +669,10 @@ def c08_case(ctx, seed):
         log = t.read(".ninja_log")
         nrec = len(build_log_records(log))
         before = parse_build_log(log)[1]
-        scenario = rng.choice(("dropped-on-disk", "dropped-deleted", "restat", "recompact"))
+        scenario = rng.choice(("dropped-on-disk", "dropped-deleted", "restat", "recompact", "secondary-record-lost", "secondary-record-lost"))
+        multi = [s for s in sc["stmts"] if len(s["outs"]) > 1 and not s["generator"]]
+        if scenario == "secondary-record-lost" and not multi:
+            scenario = "recompact"
         ctx.evaluations += 1
         ctx.count("e2e_log_%s" % scenario)
         if scenario in ("dropped-on-disk", "dropped-deleted"):
@@ -696,6 +699,37 @@ def c08_case(ctx, seed):
                 if live and name != vo and after[o][0] != rec[0]:
                     ctx.violation("C08/e2e-recompaction-changed-hash", "%s: %s" % (what, name), rep)
                     return
+        elif scenario == "secondary-record-lost":
+            # the records of one command are written one output after the other; a log that lost (all of, or the tail of) the
+            # record of a further output of a statement - ninja died in between, the disk filled up - vouches for nothing
+            v = rng.choice(multi)
+            o2 = v["outs"][1].encode()
+            lines = log.split(b"\n")
+            idx = [k for k, ln in enumerate(lines) if ln.split(b"\t")[3:4] == [o2]]
+            how = rng.choice(("removed", "torn"))
+            for k in idx:
+                lines[k] = None if how == "removed" else lines[k][:rng.randint(1, max(1, len(lines[k]) - 2))]
+            newlog = b"\n".join(ln for ln in lines if ln is not None)
+            if how == "torn":
+                # a torn line can only be the last thing in the file
+                keep = [ln for ln in lines if ln is not None]
+                last = max(idx)
+                newlog = b"\n".join(x for x in lines[:last] if x is not None and x.split(b"\t")[3:4] != [o2]) + b"\n" + lines[last]
+            with open(t.path(".ninja_log"), "wb") as f:
+                f.write(newlog)
+            t.events(clear=True)
+            rc, so, se = t.run(["-j4"])
+            ran = {e["id"] for e in t.events() if e["e"] == "S"}
+            ctx.nontrivial((seed, scenario, how))
+            if v["outs"][0] not in ran:
+                ctx.violation("C08/e2e-lost-record-of-further-output-trusted/%s" % how,
+                              "%s: the log has no complete record for %s (the second output of %s) any more, yet ninja does not run the command again: %s" %
+                              (what, o2.decode(), v["outs"][0], so.decode("latin-1")[-200:]), rep)
+                return
+            if how == "torn":
+                # the first record appended behind the torn line merged with it and is lost as well (allowed: it can only make an
+                # output look out of date): one more run re-does that command, after which the log is whole again
+                t.run(["-j4"])
         elif scenario == "restat":
             sel = [s["outs"][0] for s in rng.sample(sc["stmts"], rng.randint(0, 3))]
             for o in rng.sample([s["outs"][0] for s in sc["stmts"]], 3):
@@ -746,7 +780,7 @@ def c08_scenarios(ctx):
 
 
 # ------------------------------------------------------------------------------------------ C16: response files on the real disk
-def c16_rsp_case(ctx, seed):
+def c16_rsp_case(ctx, seed, prop="C16"):
     """Response files through RealDiskInterface and real processes: a file may already be at the rspfile path (kept after a
     failed command, kept by -d keeprsp, or plain stale) and may be longer than the new content; the command must still read
     exactly the evaluated rspfile_content, the file is removed after success and kept - with exactly that content - after a
@@ -780,7 +814,7 @@ def c16_rsp_case(ctx, seed):
             ctx.evaluations += 1
             sig = util.san_signature((so + se).decode("latin-1"))
             if sig:
-                ctx.violation("C16/e2e-sanitizer/" + sig, "%s: %s" % (what, (so + se).decode("latin-1")[-1200:]), rep)
+                ctx.violation(prop + "/e2e-sanitizer/" + sig, "%s: %s" % (what, (so + se).decode("latin-1")[-1200:]), rep)
                 return
             ran0 = {e["id"] for e in t.events() if e["e"] == "S"}
             for s in victims:
@@ -789,7 +823,7 @@ def c16_rsp_case(ctx, seed):
                 ctx.count("e2e_rsp_kept_checks")
                 got = t.read(s["rsp"])
                 if got is None or got.decode("latin-1") != simlib.rsp_string(s):
-                    ctx.violation("C16/e2e-rspfile-after-failure", "%s: after the command of %s failed its response file is %r, expected %r" %
+                    ctx.violation(prop + "/e2e-rspfile-after-failure", "%s: after the command of %s failed its response file is %r, expected %r" %
                                   (what, s["outs"][0], got, simlib.rsp_string(s)), rep)
                     return
             for s in sc["stmts"]:
@@ -810,7 +844,7 @@ def c16_rsp_case(ctx, seed):
                 ctx.count("e2e_rsp_kept_checks")
                 got = t.read(s["rsp"])
                 if rc == 0 and (got is None or got.decode("latin-1") != simlib.rsp_string(s)):
-                    ctx.violation("C16/e2e-rspfile-keeprsp", "%s: -d keeprsp left %r for %s, expected %r" % (what, got, s["outs"][0], simlib.rsp_string(s)), rep)
+                    ctx.violation(prop + "/e2e-rspfile-keeprsp", "%s: -d keeprsp left %r for %s, expected %r" % (what, got, s["outs"][0], simlib.rsp_string(s)), rep)
                     return
             for s in sc["stmts"]:
                 if s["kind"] == "cmd" and s["rsp"]:
@@ -830,15 +864,15 @@ def c16_rsp_case(ctx, seed):
             return
         sig = util.san_signature((so + se).decode("latin-1"))
         if sig:
-            ctx.violation("C16/e2e-sanitizer/" + sig, "%s: %s" % (what, (so + se).decode("latin-1")[-1200:]), rep)
+            ctx.violation(prop + "/e2e-sanitizer/" + sig, "%s: %s" % (what, (so + se).decode("latin-1")[-1200:]), rep)
             return
         if rc != 0:
-            ctx.violation("C16/e2e-build-failed/%s" % mode, "%s (%s): exit %s: %s" % (what, mode, rc, (so + se).decode("latin-1")[-600:]), rep)
+            ctx.violation(prop + "/e2e-build-failed/%s" % mode, "%s (%s): exit %s: %s" % (what, mode, rc, (so + se).decode("latin-1")[-600:]), rep)
             return
         bad = compare_with_clean(sc, t)
         if bad:
             o, got, want = bad[0]
-            ctx.violation("C16/e2e-command-saw-wrong-rspfile/%s" % mode,
+            ctx.violation(prop + "/e2e-command-saw-wrong-rspfile/%s" % mode,
                           "%s (%s): %s is %r, a command that read exactly the evaluated rspfile_content writes %r" % (what, mode, o, got, want), rep)
             return
         ran = {e["id"] for e in t.events(clear=False) if e["e"] == "S"}
@@ -847,7 +881,7 @@ def c16_rsp_case(ctx, seed):
                 continue        # not part of the default targets
             ctx.count("e2e_rsp_removed_checks")
             if t.read(s["rsp"]) is not None:
-                ctx.violation("C16/e2e-rspfile-not-removed", "%s (%s): %s still exists after its command succeeded" % (what, mode, s["rsp"]), rep)
+                ctx.violation(prop + "/e2e-rspfile-not-removed", "%s (%s): %s still exists after its command succeeded" % (what, mode, s["rsp"]), rep)
                 return
         ctx.nontrivial(("e2e", seed))
         ctx.count("e2e_rsp_scenarios_%s" % mode)
@@ -970,8 +1004,9 @@ def c05_case(ctx, seed):
 
 
 # ------------------------------------------------------------------------------------------ C14: spellings through every entry point
-def _respell(rng, p):
-    """a spelling of p that differs only by '.', empty and resolvable '..' components and repeated slashes"""
+def _respell(rng, p, os_valid=False):
+    """a spelling of p that differs only by '.', empty and resolvable '..' components and repeated slashes
+    (os_valid: the spelling is handed to the operating system as is - no 'dir/..' through directories that do not exist)"""
     comps = p.split("/")
     out = []
     if rng.random() < 0.3:
@@ -980,7 +1015,7 @@ def _respell(rng, p):
         x = rng.random()
         if x < 0.25:
             out.append(".")
-        elif x < 0.45:
+        elif x < 0.45 and not os_valid:
             out += [rng.choice(("zz", "o", "tmp")), ".."]
         elif x < 0.6 and out:
             out.append("")            # an empty component: a doubled slash (not in front: that would make the path absolute)
@@ -995,7 +1030,8 @@ def c14_entry_case(ctx, seed):
     dependencies - respelled independently.  Both must do the same thing at every step."""
     rng = random.Random(seed)
     mode = rng.choice(("depfile", "depfile", "gcc"))
-    P = {"out": "o/x.o", "out2": "o/x.map", "src": "s/a.c", "hdr": "h/h.h", "hdr2": "h/sub/g.h", "fin": "bin/final"}
+    P = {"out": "o/x.o", "out2": "o/x.map", "src": "s/a.c", "hdr": "h/h.h", "hdr2": "h/sub/g.h", "fin": "bin/final",
+         "manifest": "build.ninja", "cfg": "conf/cfg.in"}
 
     def manifest(sp):
         dep_line = "%s%s: %s %s %s" % (sp("out"), (" " + sp("out2")) if mode == "depfile" and two_targets else "", sp("src"), sp("hdr"), sp("hdr2"))
@@ -1005,6 +1041,10 @@ def c14_entry_case(ctx, seed):
              "  depfile = %s.d" % sp("out")]
         if mode == "gcc":
             L.append("  deps = gcc")
+        # the manifest is itself a build output (generator): asked for under any spelling of its name (-f), ninja has to
+        # recognise it and bring it up to date first
+        L += ["rule regen", "  command = echo regen >> regen.log && touch build.ninja", "  description = REGEN", "  generator = 1",
+              "build %s: regen %s" % (sp("manifest"), sp("cfg"))]
         L += ["rule cat", "  command = cat $in > $out", "  description = CAT",
               "build %s%s: cc %s" % (sp("out"), (" | " + sp("out2")) if mode == "gcc" else (" " + sp("out2")), sp("src")),
               "build %s: cat %s %s" % (sp("fin"), sp("out"), sp("out2")),
@@ -1014,10 +1054,10 @@ def c14_entry_case(ctx, seed):
     results = {}
     rep = {"seed": seed, "mode": mode}
     for variant in ("canonical", "respelled"):
-        sp = (lambda k: P[k]) if variant == "canonical" else (lambda k: _respell(rng, P[k]))
+        sp = (lambda k: P[k]) if variant == "canonical" else (lambda k: _respell(rng, P[k], os_valid=(k == "manifest")))
         t = Tree()
         try:
-            for k in ("src", "hdr", "hdr2"):
+            for k in ("src", "hdr", "hdr2", "cfg"):
                 t.write(P[k], "// %s\n" % k)
             text = manifest(sp)
             t.write("build.ninja", text)
@@ -1028,7 +1068,7 @@ def c14_entry_case(ctx, seed):
                 rc, so, se = t.run(args)
                 txt = (so + se).decode("latin-1")
                 sig = util.san_signature(txt)
-                ran = sorted(re.findall(r"\] (CC|CAT)", txt))
+                ran = sorted(re.findall(r"\] (CC|CAT|REGEN)", txt))
                 seq.append((label, rc, tuple(ran), "no work to do" in txt, sig or "", txt[-300:] if rc else ""))
             step([], "first build")
             step([], "again")
@@ -1038,6 +1078,11 @@ def c14_entry_case(ctx, seed):
             step([sp("out")] if variant == "respelled" else [P["out"]], "command-line target")
             t.touch(P["src"])
             step([sp("fin")] if variant == "respelled" else [P["fin"]], "after touching the source, target given on the command line")
+            # the manifest named with -f under another spelling, while it is out of date
+            t.touch(P["cfg"])
+            step(["-f", sp("manifest") if variant == "respelled" else P["manifest"]], "stale manifest named with -f")
+            nreg = (t.read("regen.log") or b"").count(b"regen")
+            seq.append(("manifest regenerations", 0, (str(nreg),), False, "", ""))
             rc, so, se = t.run(["-t", "query", sp("out2") if variant == "respelled" else P["out2"]])
             seq.append(("query", rc, tuple(so.decode("latin-1").split("\n")[:1]), False, "", ""))
             if mode == "gcc":
@@ -1059,3 +1104,71 @@ def c14_entry_case(ctx, seed):
                           (seed, mode, la, rca, list(rana), rcb, list(ranb), errb), rep)
             return
     ctx.count("entry_point_steps_equal", len(a))
+
+
+# ------------------------------------------------------------------------------------------ C18: cleandead on a long build log
+def c18_dead_case(ctx, seed):
+    """`-t cleandead` with the real binary after a long history: the build log is due for recompaction (which ninja does
+    while opening it, inside the same invocation), statements have been removed from the manifest and their outputs are still
+    on disk.  Every such output is removed (or, with -n, reported), nothing else is."""
+    from .simlib import St
+    rng = random.Random(seed)
+    n = rng.randint(28, 40)
+    sc = {"id": "C18e-%d" % seed, "sources": {"in.c": "// in\n"}, "stmts": [], "pools": {}, "defaults": []}
+    for i in range(n):
+        st = St("s%d" % i, ["o%d.o" % i], ins=["in.c"])
+        if rng.random() < 0.2:
+            st["iouts"] = ["o%d.lst" % i]
+        sc["stmts"].append(st)
+    t = Tree(sc)
+    rep = {"seed": seed}
+    what = "e2e cleandead scenario %d" % seed
+    try:
+        for r in range(rng.randint(4, 5)):
+            for s in sc["stmts"]:
+                s["ver"] += 1
+            t.install(sc)
+            rc, so, se = t.run(["-j8"])
+            if rc != 0:
+                ctx.inconclusive += 1
+                return
+        victims = rng.sample(sc["stmts"], rng.randint(1, 3))
+        dead = [o for v in victims for o in all_outs(v)]
+        sc["stmts"] = [s for s in sc["stmts"] if s not in victims]
+        t.install(sc)
+        t.write("notes.txt", "not ours\n")
+        if rng.random() < 0.3:
+            t.run(["-t", "recompact"])
+        dry = rng.random() < 0.3
+        before = t.snapshot()
+        rc, so, se = t.run((["-n"] if dry else []) + ["-t", "cleandead"])
+        ctx.evaluations += 1
+        ctx.count("e2e_cleandead_%s" % ("dry" if dry else "real"))
+        txt = (so + se).decode("latin-1")
+        sig = util.san_signature(txt)
+        if sig:
+            ctx.violation("C18/e2e-sanitizer/" + sig, "%s: %s" % (what, txt[-1200:]), rep)
+            return
+        after = t.snapshot()
+        gone = sorted(p for p in before if p not in after)
+        ctx.nontrivial(("e2e-dead", seed))
+        if dry:
+            if gone:
+                ctx.violation("C18/e2e-dry-run-removed", "%s: -n -t cleandead removed %s" % (what, gone), rep)
+                return
+            m = re.search(r"(\d+) files", txt)
+            if not m or int(m.group(1)) != len(dead):
+                ctx.violation("C18/e2e-cleandead-dry-count", "%s: -n -t cleandead reports %r, %d dead outputs are on disk (%s)" % (what, txt[-120:], len(dead), dead), rep)
+            return
+        if sorted(gone) != sorted(dead):
+            left = sorted(set(dead) - set(gone))
+            extra = sorted(set(gone) - set(dead))
+            ctx.violation("C18/e2e-cleandead/%s" % ("not-removed" if left else "out-of-scope-removed"),
+                          "%s: outputs of statements removed from the manifest: %s; cleandead removed %s (left behind: %s, removed beyond: %s): %s" %
+                          (what, dead, gone, left, extra, txt[-200:]), rep)
+            return
+        rc, so, se = t.run(["-j4"])
+        if rc != 0 or b"no work to do" not in so:
+            ctx.violation("C18/e2e-build-after-cleandead", "%s: %s" % (what, so.decode("latin-1")[-300:]), rep)
+    finally:
+        t.close()
